@@ -533,6 +533,8 @@ class XsdAttributeGroup(
                     assert isinstance(base_attr, XsdAnyAttribute), "invalid base attribute"
 
                     if self.derivation == 'extension':
+                        # The wildcard can be the one of a referenced attribute group
+                        attributes[None] = attr = copy(attr)
                         try:
                             attr.union(base_attr)
                         except ValueError as err:
